@@ -34,7 +34,7 @@ def check(rep, ctx):
         "the same getvalue() term taken after the last staged write. Records: varint length of exactly the staged record, "
         "int8 attributes, zig-zag varlong timestamp delta, zig-zag varint offset delta, nullable key/value, header count "
         "and headers. E6: the millisecond conversions do not truncate an inexact float. Not decided: CRC-32C itself.")
-    R_L = rep.rule("C17-layout", "batch header fields are written in the v2 order with the v2 formats", floor=26)
+    R_L = rep.rule("C17-layout", "batch header fields are written in the v2 order with the v2 formats", floor=13)
     R_P = rep.rule("C17-provenance", "every header slot is derived from the records as the format prescribes", floor=20)
     R_F = rep.rule("C17-framing", "batchLength / CRC / appended bytes refer to the same staged bytes; the length constant is "
                    "the size of the fields between batchLength and the staged bytes", floor=4)
@@ -54,8 +54,17 @@ def check(rep, ctx):
     for p in rets:
         first = ("item", records, 0)
         many = any(f[0] == ("ge", ("len", records), ("k", 2)) and f[1] for f in p.facts)
-        last = ("item", records, -1) if many else first
-        case = "len(records) >= 2" if many else "len(records) == 1"
+        exactly_one = any(f[0] == ("eq", ("len", records), ("k", 1)) and f[1] for f in p.facts)
+        # records[-1] is the last record of any non-empty sequence; records[0] is the last one only where the path knows len == 1
+        last = first if exactly_one else ("item", records, -1)
+        case = "len(records) >= 2" if many else "len(records) == 1" if exactly_one else "len(records) >= 1"
+
+        def _norm_last(t_):
+            if exactly_one and isinstance(t_, tuple):
+                if t_ == ("item", records, -1):
+                    return first
+                return tuple(_norm_last(x_) for x_ in t_)
+            return t_
         sink = [e for e in p.effects if e[0] in ("write", "wvarint") and e[1].kind == "param"]
         staged = [e for e in p.effects if e[0] in ("write", "wvarint", "repeat") and (e[0] == "repeat" or e[1].kind == "local")]
         staged_writes = [e for e in staged if e[0] != "repeat"]
@@ -89,7 +98,7 @@ def check(rep, ctx):
             "partition_leader_epoch": attr(nb, "partition_leader_epoch"), "count": ("len", records),
         }
         for name, w in want.items():
-            rep.check(R_P, vals.get(name) == w, construct=fn.ref, stmt=f"{name} <- {show_term(vals.get(name))}",
+            rep.check(R_P, _norm_last(vals.get(name)) == w, construct=fn.ref, stmt=f"{name} <- {show_term(vals.get(name))}",
                       message=f"{case}: slot {name} carries {show_term(vals.get(name))}, expected {show_term(w)}",
                       file=file, line=fn.node.lineno, instance=f"{case}|{name}")
         # timestamps: conversion of first.timestamp / max(record.timestamp)
